@@ -1,6 +1,12 @@
 HOOK_COMMITS = ["a7ddfc0"]
 
 META = {
+    "C01": dict(
+        text="Model-based property testing of policy composition: generated pools of policy instances, stacks with repetition and histories of executions (all eight entry points) are run in lock-step against a sequential reference interpreter of the documented per-policy behaviour; after every execution the invocation count, returned value and error, the completion verdict and listeners, the cache content and traffic, and the post-state of every stateful instance are compared. Sampling, not proof.",
+        design_ref="DESIGN.md sections 5.3 and 6, C01",
+        note="Trusts the reference model (harness/compose/model.go, harness/cbmodel, harness/rlmodel) and the clock/stopwatch hooks; real hedging and racing timers are outside this check by construction (C07, C09); statement-open corners are discarded or checked weakly and counted in the evidence.",
+        technique="property-based testing (rapid): differential testing against a sequential reference model of the composition, over generated compositions x configurations x outcome scripts x histories",
+    ),
     "C03": dict(
         text="Model-based property testing of the breaker state machine on an injected virtual clock: generated histories of record/acquire/manual/execution operations and boundary-biased clock advances are applied in lock-step to the real breaker and to a naive reference breaker (plain result lists recounted per query); state, admission decisions, remaining delay, metrics, and the generic and specific state-change events with their metrics are compared after every operation. The time window is checked against the envelope the property states (results aged <= 0.9 period always count, > period never). Sampling, not proof.",
         design_ref="DESIGN.md section 6, C03",
